@@ -707,6 +707,13 @@ func c01(r *h.Result, rng *h.Rng, tier string, replay string) error {
 	if err := c01HandlerErrText(r, rng.Fork(), nHE); err != nil {
 		return err
 	}
+	nProbe := 6
+	if tier != "quick" {
+		nProbe = 48
+	}
+	if err := c02LockProbe(r, rng.Fork(), nProbe, 120, "C01/"); err != nil {
+		return err
+	}
 	if tier == "quick" {
 		c01HandlerChunks(r, rng.Fork(), 4)
 	} else {
